@@ -19,7 +19,7 @@ THEOREMS = ["Pyro.C18.C18_gen_shape_ok", "Pyro.C18.C18_gen_source", "Pyro.C18.C1
             "Pyro.C18.C18_close_exits", "Pyro.C18.C18_race_overlimit", "Pyro.C18.C18_race_close",
             "Pyro.Lock.atomic", "Pyro.Lock.book"]
 SUITES = ["sequential", "schedules"]
-RULE = ("(a) sequential: generated op lists (submit / let job k end / close) for pool sizes 1<=min<=max<=3 run on the REAL Pool "
+RULE = ("(a) sequential: generated op lists (submit / let job k end normally or by raising / close) for pool sizes 1<=min<=max<=3 run on the REAL Pool "
         "with real Worker threads under the deterministic scheduler; after every op the workers are run to rest under a seeded "
         "random interleaving and |idle|, |busy|, closed, per-job (accepted by which worker | refused full | refused closed, "
         "times run, ended) and per-worker state are compared with the model; (b) schedules: small scenarios (pool sizes 1..2, "
